@@ -1,7 +1,7 @@
 //! C01 – every commitment conserves the channel's funds and both peers agree on it.
 use crate::oracles::{chan_infos, CommitmentOracle, NoErrorOracle};
 use crate::runner::{fill_model_checking_evidence, run_scenarios, Scenario};
-use crate::sys::{Deviations, Op, WorldSys};
+use crate::sys::{Deviations, Op, ProbeKind, WorldSys};
 use crate::world::{ClaimPolicy, World};
 use lightning::util::config::UserConfig;
 use mc_common::cli::{Args, Tier};
@@ -33,6 +33,16 @@ pub fn two_node_world(ct: Ct, feerate: u32) -> (World, Vec<lightning::ln::types:
 	(w, vec![cid])
 }
 
+/// Small channel in which the reserve and the commitment fee (not the in-flight cap) bind.
+pub fn tight_world(ct: Ct, feerate: u32) -> (World, Vec<lightning::ln::types::ChannelId>) {
+	let mut c = user_config(ct);
+	c.channel_handshake_config.announced_channel_max_inbound_htlc_value_in_flight_percentage = 100;
+	c.channel_handshake_config.unannounced_channel_max_inbound_htlc_value_in_flight_percentage = 100;
+	let mut w = World::new(vec![c.clone(), c], feerate);
+	let cid = w.open_channel(0, 1, 100_000, 30_000_000);
+	(w, vec![cid])
+}
+
 #[derive(Clone, Debug)]
 pub struct C01Scn {
 	pub name: String,
@@ -42,10 +52,11 @@ pub struct C01Scn {
 	pub dev: Deviations,
 	pub k: u32,
 	pub max_disconnects: u32,
+	pub tight: bool,
 }
 
 pub fn build(s: &C01Scn) -> WorldSys {
-	let (w, chans) = two_node_world(s.ct, 253);
+	let (w, chans) = if s.tight { tight_world(s.ct, 253) } else { two_node_world(s.ct, 253) };
 	let infos = chan_infos(&w, &chans);
 	let mut sys = WorldSys::new(w, chans, s.ops.clone());
 	sys.ops_first = s.ops_first;
@@ -87,6 +98,7 @@ pub fn scenarios(tier: Tier) -> Vec<C01Scn> {
 			dev: reorder.clone(),
 			k: if tier.is_thorough() { 3 } else { 2 },
 			max_disconnects: 0,
+			tight: false,
 		});
 		v.push(C01Scn {
 			name: format!("{}-cross-fail-dust", n),
@@ -96,6 +108,7 @@ pub fn scenarios(tier: Tier) -> Vec<C01Scn> {
 			dev: reorder.clone(),
 			k: if tier.is_thorough() { 3 } else { 2 },
 			max_disconnects: 0,
+			tight: false,
 		});
 		// (ii) 2+1 budget with a fee change, sequential default, early operations as deviations
 		v.push(C01Scn {
@@ -111,6 +124,7 @@ pub fn scenarios(tier: Tier) -> Vec<C01Scn> {
 			dev: reorder.clone(),
 			k: if tier.is_thorough() { 3 } else { 2 },
 			max_disconnects: 0,
+			tight: false,
 		});
 		// (iii) disconnect / reconnect anywhere
 		v.push(C01Scn {
@@ -121,6 +135,7 @@ pub fn scenarios(tier: Tier) -> Vec<C01Scn> {
 			dev: with_disc.clone(),
 			k: if tier.is_thorough() { 3 } else { 2 },
 			max_disconnects: if tier.is_thorough() { 2 } else { 1 },
+			tight: false,
 		});
 		// (iv) cooperative close with an HTLC in flight
 		v.push(C01Scn {
@@ -131,7 +146,26 @@ pub fn scenarios(tier: Tier) -> Vec<C01Scn> {
 			dev: reorder.clone(),
 			k: if tier.is_thorough() { 3 } else { 2 },
 			max_disconnects: 0,
+			tight: false,
 		});
+		// (v) limit probes at every point of a payment flow (k <= 1 quick): sender-side exactness
+		for tight in [false, true] {
+			for node in [0usize, 1] {
+				for kind in [ProbeKind::AtLimit, ProbeKind::AboveLimit, ProbeKind::AtMin, ProbeKind::BelowMin] {
+					let base_amt = if tight { 20_000_000 } else { large };
+					v.push(C01Scn {
+						name: format!("{}-probe-{}-{:?}-n{}", n, if tight { "tight" } else { "wide" }, kind, node),
+						ct,
+						ops: vec![send(0, 1, base_amt, ClaimPolicy::Claim), Op::Probe { node, chan: 0, kind }],
+						ops_first: false,
+						dev: reorder.clone(),
+						k: if tier.is_thorough() { 2 } else { 1 },
+						max_disconnects: 0,
+						tight,
+					});
+				}
+			}
+		}
 	}
 	v
 }
@@ -160,6 +194,23 @@ pub fn run(args: &Args) -> i32 {
 		.collect();
 	let r = run_scenarios("C01", args, scns, cap);
 	fill_model_checking_evidence(&mut ev, &r);
+	if args.opt("only").is_none() {
+		crate::runner::require_witnesses(
+			&mut ev,
+			&[
+				"commitments-checked-against-model",
+				"commitment-with-trimmed-htlc",
+				"commitment-with-untrimmed-htlcs-both-directions",
+				"commitment-after-fee-update",
+				"disconnect-with-uncommitted-updates",
+				"probe-at-limit",
+				"probe-above-limit",
+				"probe-at-minimum",
+			],
+		);
+	} else {
+		ev.set("witnesses", json!(crate::runner::witnesses()));
+	}
 	ev.assume("secp256k1, SHA-256 and libbitcoinconsensus behave to spec");
 	ev.assume("messages on one link are delivered in FIFO order (TCP); calls into a node are atomic (no lock-level interleaving inside ChannelManager)");
 	ev.assume("BOLT-3 arithmetic of the reference model transcribed from the specification (static_remote_key and anchors_zero_fee_htlc_tx); zero-fee-commitment channels are judged by conservation and peer agreement only");
